@@ -806,11 +806,14 @@ def rule_d2(toks, log):
         if not (len(gen) >= 3 and _is(gen[0], '[') and _is(gen[-1], ']')) or _is(ts[f + 2], '<'):
             raise Unsupported('D2: Generics entry shape / method has its own generics')
         inner = gen[1:-1]
-        for q, x in enumerate(inner):
-            if not ((q % 2 == 0 and x[0] == 'id' and x[1].startswith("'")) or (q % 2 == 1 and _is(x, ','))):
-                raise Unsupported('D2: Generics entry may only list lifetimes: `%s`' % _txt(gen))
+        for part in _split_top(inner):
+            # a lifetime `'a`, or a const parameter of the impl header `const B : Word` (impl<const B: Word> Tr<X<B>> for Y)
+            lt = len(part) == 1 and part[0][0] == 'id' and part[0][1].startswith("'")
+            cg = len(part) == 4 and _is(part[0], 'const') and part[1][0] == 'id' and _is(part[2], ':') and part[3][0] == 'id'
+            if not (lt or cg):
+                raise Unsupported('D2: Generics entry may only list lifetimes and `const N: T` parameters: `%s`' % _txt(gen))
         ts = ts[:f + 2] + [T('p', '<')] + inner + [T('p', '>')] + ts[f + 2:]
-        log.append('D2 hoist: impl lifetimes `%s` declared on the free function' % _txt(inner))
+        log.append('D2 hoist: impl generics `%s` declared on the free function' % _txt(inner))
     j = f + 1
     gd = 0
     while True:
@@ -1101,6 +1104,53 @@ def rule_d15(toks, log):
 
 
 # ---------------------------------------------------------------------------------------
+# D16: mutable sub-slice of a boxed slice (directive `#[box_slice(P)]` in the contract block)
+
+def rule_d16(toks, log):
+    """Directive `#[box_slice(P)]` (annotation tokens; P a place path `id ( . id | . int )*` of type `Box<[Word]>`):
+    every real-token occurrence of `& mut P [` becomes `& mut __as_mut_slice ( & mut P ) [`.  Verus (this build) loses the
+    view of `&mut b[range]` when `b` is a `Box<[T]>` (probed: shared slicing and `&mut b` as a `&mut [T]` argument are
+    fine).  `__as_mut_slice(s: &mut [Word]) -> &mut [Word]` is the identity function, VERIFIED in the unit
+    (lib/mod2_ring.rs: `r@ == old(s)@, final(r)@ == final(s)@`); the deref coercion `&mut Box<[Word]>` -> `&mut [Word]`
+    is the one every unit already relies on when it passes `&mut x.0` to a kernel.  A directive without any occurrence
+    raises Unsupported."""
+    i = 0
+    while i + 3 < len(toks):
+        if toks[i][2] and _is(toks[i], '#') and _is(toks[i + 1], '[') and _is(toks[i + 2], 'box_slice') and _is(toks[i + 3], '('):
+            break
+        i += 1
+    else:
+        return toks
+    ce = _match_close(toks, i + 3)
+    if not (ce + 1 < len(toks) and _is(toks[ce + 1], ']')):
+        raise Unsupported('D16: malformed box_slice directive')
+    place = [(k, t) for k, t, _ in toks[i + 4:ce]]
+    if not place or place[0][0] != 'id' or len(place) % 2 != 1 \
+            or any((q % 2 == 1) != (x == ('p', '.')) for q, x in enumerate(place)) \
+            or any(x[0] not in ('id', 'lit', 'int', 'num') for x in place[0::2]):
+        raise Unsupported('D16: box_slice place `%s`' % _txt(toks[i + 4:ce]))
+    out = toks[:i] + toks[ce + 2:]
+    n = len(place)
+    hits = 0
+    k = 0
+    while k + 2 + n < len(out):
+        if _is(out[k], '&') and _is(out[k + 1], 'mut') and not out[k][2] and not out[k + 1][2] \
+                and [(a, b) for a, b, _ in out[k + 2:k + 2 + n]] == place and not any(x[2] for x in out[k + 2:k + 2 + n]) \
+                and _is(out[k + 2 + n], '[') and not out[k + 2 + n][2]:
+            new = toks_of('& mut __as_mut_slice ( & mut', False) + out[k + 2:k + 2 + n] + [T('p', ')')]
+            out = out[:k] + new + out[k + 2 + n:]
+            k += len(new)
+            hits += 1
+            continue
+        k += 1
+    if hits == 0:
+        raise Unsupported('D16: no `&mut %s[..]` in the function' % _txt(toks[i + 4:ce]))
+    log.append('D16 `&mut %s[..]` -> `&mut __as_mut_slice(&mut %s)[..]` (%d occurrence(s); identity helper verified in the unit)' % (
+        _txt(toks[i + 4:ce]), _txt(toks[i + 4:ce]), hits))
+    return out
+
+
+# ---------------------------------------------------------------------------------------
 
 def lower(toks, marks, opts=None):
     """toks: [(kind,text)], marks: [bool]; returns ([(kind,text)], log)."""
@@ -1119,6 +1169,7 @@ def lower(toks, marks, opts=None):
     ts = rule_d13(ts, log)
     ts = rule_d14(ts, log)
     ts = rule_d15(ts, log)
+    ts = rule_d16(ts, log)
     ts = rule_d7(ts, log)
     ts = rule_d1(ts, log)
     ts = rule_d9(ts, log)
